@@ -47,12 +47,12 @@ def c13(tier, seed):
               ("at least 200 of them with adjacent separators", agg.count("valid_with_adjacent_separators") >= 200),
               ("at least 500 invalid strings", agg.count("invalid_strings") >= 500),
               ("every catalogue name resolved at least once", agg.ndistinct("resolved") >= 30),
-              ("all 9 kinds of invalid string generated", agg.ndistinct("rejected-kind") >= 9)]
+              ("all 12 kinds of invalid string generated", agg.ndistinct("rejected-kind") >= 12)]
     cov = {"evaluations": agg.count("valid_decorated_strings") + agg.count("invalid_strings") + agg.count("handle_verbatim_checks"),
            "distinct_nontrivial": agg.count("valid_with_adjacent_separators") + agg.ndistinct("rejected-kind"),
            "rule": "strings = catalogue names (as printed by masa_printid of the build under test) decorated by random case flips and 0-4 inserted "
-                   "runs of '-'/' ' (12 run shapes; leading, trailing, next to '_', anywhere), or near-misses (9 kinds: random, delete/insert/substitute one "
-                   "character, '_' removed/doubled, tab or '.', separators only, two names joined), each classified by an independent normaliser "
+                   "runs of '-'/' ' (12 run shapes; leading, trailing, next to '_', anywhere), or near-misses (12 kinds: random, delete/insert/substitute one "
+                   "character, '_' removed/doubled, tab or '.', separators only, two names joined, a hash-preserving two-character edit, bytes with the top bit set, other white space), each classified by an independent normaliser "
                    "(lower-case, drop '-' and ' '). Non-trivial = valid string with >=2 adjacent separators (counted; strings are random so "
                    "duplicates are negligible) + distinct near-miss kinds.",
            "flavours": ["exc (throw observed in-process, registry compared before/after)", "plain (exit status of a forked child)"],
@@ -433,7 +433,7 @@ def cat_exe(flavour):
 def c14(tier, seed):
     agg = Agg("C14", tier, seed)
     shards = []
-    for fl in ("plain", "exc"):
+    for fl in ("plain", "exc", "ndebug"):
         for p in ("d", "l"):
             shards.append(Shard(cat_exe(fl), ["--mode", "c14", "--prec", p, "--seed", str(seed)], "%s/c14/%s" % (fl, p), env=NOLEAK))
     agg.add_shards(run_shards(shards))
@@ -443,6 +443,7 @@ def c14(tier, seed):
            "rule": "every name printed by masa_printid<double> and <long double> of the build under test: unique, own normal form, initialisable, masa_get_name echoes it; for the "
                    "non-fixture entries sanity_check == 0, init_param == 0, dimension == number of spatial coordinates in spec/catalogue.txt, and every evaluator the spec lists as "
                    "documented returns a finite non-sentinel value and prints no error at 16 interior points with default parameters. Distinct = (entry, precision) pairs.",
+           "configurations": ["g++ -O0 (exit() build)", "g++ -O0 -DMASA_EXCEPTIONS", "g++ -O2 -DNDEBUG"],
            "exhaustive": True, "catalogue_size": agg.ndistinct("catalogue_names"), "entries_unknown_to_spec": unknown, "spec_entries_missing_from_build": missing}
     floors = [("catalogue has at least 37 entries", agg.ndistinct("catalogue_names") >= 37), ("every entry checked in both precisions", agg.ndistinct("entries_checked") >= 2 * agg.ndistinct("catalogue_names")),
               ("no catalogue entry unknown to the spec (would be uncovered)", not unknown), ("no spec entry missing from the build", not missing)]
@@ -458,7 +459,7 @@ def c15(tier, seed):
     for fl in (("plain", "exc") if tier == "thorough" else ("plain",)):
         for p in ("d", "l"):
             for i in range(parts):
-                shards.append(Shard(cat_exe(fl), ["--mode", "c15", "--prec", p, "--seed", str(seed), "--shard", str(i), "--parts", str(parts)], "%s/c15/%s/%d" % (fl, p, i), env=NOLEAK))
+                shards.append(Shard(cat_exe(fl), ["--mode", "c15", "--prec", p, "--seed", str(seed), "--shard", str(i), "--parts", str(parts), "--repeat", "12000" if tier == "quick" else "70000"], "%s/c15/%s/%d" % (fl, p, i), env=NOLEAK, timeout=3600))
     agg.add_shards(run_shards(shards))
     cov = {"evaluations": agg.count("evaluator_calls"), "distinct_nontrivial": agg.ndistinct("unprovided_pairs"),
            "rule": "every (solution, overload, precision) triple of the 117-entry API table (harness/spec/api_table.def) that spec/catalogue.txt does not list as provided or unspecified, "
@@ -542,6 +543,7 @@ def c19(tier, seed):
         shards.append(Shard(mem_excasan, ["--mode", "strings", "--prec", p, "--seed", S(seed)], "exc-asan/strings/%s" % p, env=ASAN_ENV, timeout=3600))
         shards.append(Shard(mem_asan, ["--mode", "strings", "--prec", p, "--seed", S(seed)], "asan/strings/%s" % p, env=ASAN_ENV, timeout=3600))
         shards.append(Shard(mem_plain, ["--mode", "growth", "--prec", p], "plain/growth/%s" % p))
+        shards.append(Shard(mem_asan, ["--mode", "badstdout", "--prec", p, "--seed", S(seed)], "asan/unwritable-stdout/%s" % p, env=ASAN_ENV, timeout=3600))
     shards.append(Shard(mem_asan, ["--mode", "carrays", "--seed", S(seed)], "asan/carrays", env=ASAN_ENV))
     # the history / catalogue / C-ABI / name workloads again, under the sanitizers
     hist_a = build.build_bin("exc-asan", "mon_hist", HIST_SRCS)
@@ -621,7 +623,7 @@ def prebuild():
             ("plain", "mon_pde", PDE_SRCS, {"opt": "-O2"}), ("opt", "mon_pde", PDE_SRCS, {"opt": "-O2"}), ("plain", "mon_reduce", RED_SRCS, {"opt": "-O2"}),
             ("plain", "mon_closed", COMMON + ["mon_closed.cpp"], {"opt": "-O2"}),
             ("exc", "mon_hist", HIST_SRCS, {}), ("plain", "mon_hist", HIST_SRCS, {}), ("exc-asan", "mon_hist", HIST_SRCS, {}), ("asan", "mon_hist", HIST_SRCS, {}),
-            ("plain", "mon_cat", CAT_SRCS, {}), ("exc", "mon_cat", CAT_SRCS, {}), ("exc-asan", "mon_cat", CAT_SRCS, {}),
+            ("plain", "mon_cat", CAT_SRCS, {}), ("exc", "mon_cat", CAT_SRCS, {}), ("ndebug", "mon_cat", CAT_SRCS, {}), ("exc-asan", "mon_cat", CAT_SRCS, {}),
             ("plain", "mon_cabi", CABI_SRCS, {"whole_archive": True}), ("exc", "mon_cabi", CABI_SRCS, {"whole_archive": True}), ("exc-asan", "mon_cabi", CABI_SRCS, {"whole_archive": True}),
             ("asan", "c18_truth", ["common.cpp", "c18_truth.cpp"], {}), ("clang-asan", "mon_mem", MEM_SRCS, {"whole_archive": True}), ("clang-asan", "mon_hist", HIST_SRCS, {}), ("clang-asan", "mon_cabi", CABI_SRCS, {"whole_archive": True}), ("asan", "mon_mem", MEM_SRCS, {"whole_archive": True}), ("exc-asan", "mon_mem", MEM_SRCS, {"whole_archive": True}), ("plain", "mon_mem", MEM_SRCS, {"whole_archive": True})]
     with ThreadPoolExecutor(6) as ex:
